@@ -25,7 +25,7 @@ RULE = ('signed Data/Interest from the real encoder x matching verifiers (verify
         'sha256_digest_checker, params_sha256_checker); mutants: byte substitution at every position (2 values), '
         'every truncation, structural edits, spliced signatures, wrong key; distinct = (packet kind, signer, '
         'mutation kind, region of the mutated byte); non-trivial = a verifier verdict was obtained on a mutant'
-        '; signed Interests with the parameters digest mid-name and an implicit digest last')
+        '; signed Interests with the parameters digest mid-name and an implicit digest last; union_checker compositions; SignatureValue element removed / emptied / shortened; NullSigner and a variable-length signer')
 
 SIGNED_KINDS = ['digest', 'hmac', 'rsa', 'ecdsa256', 'ecdsa384', 'ecdsa521', 'ed25519', 'null', 'var']
 
